@@ -103,8 +103,8 @@ NoY == [ysrc |-> "none", ylvl |-> 0, yuses |-> {}, yafter |-> FALSE]
 Shapes1(maxd) ==
   {c @@ NoY : c \in {c \in [d : 1..maxd, src : {"let", "var", "param", "loop", "match"}, lvl : 0..(maxd - 1), uses : SUBSET (1..maxd),
                              before : BOOLEAN, after : BOOLEAN, mode : {"inner", "ret"}, ctx : {"fn", "main"}] : ShapeOK(c)}}
-\* two captured variables: x as above (function context; reassigned both before and after, or not at all), y let or reassigned var
-YShapes(c) == {[ysrc |-> ys, ylvl |-> yl, yuses |-> yu, yafter |-> ys = "var"] : ys \in {"let", "var"}, yl \in 0..(c.d - 1), yu \in SUBSET (1..c.d)}
+\* two captured variables: x as above (function context; reassigned both before and after, or not at all), y a reassigned var
+YShapes(c) == {[ysrc |-> ys, ylvl |-> yl, yuses |-> yu, yafter |-> ys = "var"] : ys \in {"var"}, yl \in 0..(c.d - 1), yu \in SUBSET (1..c.d)}
 Shapes2(maxd) ==
   UNION {{[k \in DOMAIN c \ DOMAIN NoY |-> c[k]] @@ y : y \in {y \in YShapes(c) : y.yuses \in Uses(c.d, y.ylvl)}} :
          c \in {c \in Shapes1(maxd) : c.ctx = "fn" /\ c.before = c.after}}
